@@ -2,11 +2,17 @@
 
 package engines
 
-import libaudit "github.com/elastic/go-libaudit/v2"
+import (
+	"io"
+
+	libaudit "github.com/elastic/go-libaudit/v2"
+)
 
 const HooksEnabled = false
 
-func newRealNetlink(sock *simSocket, pid uint32, buf []byte) *libaudit.NetlinkClient { return nil }
+func newRealNetlink(sock *simSocket, pid uint32, buf []byte, resp io.Writer) *libaudit.NetlinkClient {
+	return nil
+}
 
 func resetCoalesceGlobals() {}
 
